@@ -69,8 +69,12 @@ fn main() {
                     String::new()
                 } else {
                     // commands that talk to real sockets or play long scripts get six times the limit of pure codec cases
+                    // (so do the commands that do a fixed, large amount of work on several threads - millions of names, thousands of decodes,
+                    // hundreds of threads -: seconds on an idle machine, more on a busy one; a busy machine is not a hang)
                     let slow = line.starts_with("NET") || line.starts_with("TLS") || line.starts_with("RECONN") || line.starts_with("CLRST") || line.starts_with("CL ")
-                        || line.starts_with("SV") || line.starts_with("SD") || line.starts_with("SE");
+                        || line.starts_with("SV") || line.starts_with("SD") || line.starts_with("SE")
+                        || line.starts_with("UNKNAMES") || line.starts_with("SWEEPMT") || line.starts_with("NESTMT") || line.starts_with("NAMERACE") || line.starts_with("THREADS")
+                        || line.starts_with("GBIG") || line.starts_with("SMALL");
                     slow_case.store(slow, std::sync::atomic::Ordering::SeqCst);
                     // an exhaustive sweep of 2^26 values per line is long by design: not watched
                     let watched = !(line.starts_with("SWEEP32") || line.starts_with("SVBIG"));
